@@ -11,7 +11,7 @@ class Session:
     def __init__(s, prop, tier, seed, bounds='', assumptions=(), level='model_checking'):
         s.prop = prop; s.tier = tier; s.seed = seed; s.t0 = time.time()
         s.work = tempfile.mkdtemp(prefix='xv_%s_' % prop)
-        s.replay_root = os.path.join(VERIF, 'replays', prop)
+        s.replay_root = os.path.join(os.environ.get('XV_REPLAY_ROOT') or os.path.join(VERIF, 'replays'), prop)
         shutil.rmtree(s.replay_root, ignore_errors=True)
         s.dec = harness.Decider(timeout_s=20 if tier == 'quick' else 300)
         s.obl = 0; s.dis = 0; s.undecided = []; s.violations = []; s.unconfirmed = []; s.known_seen = {}
